@@ -1,5 +1,5 @@
-"""Per-property registration: what MANIFEST.json says about each claimed check.
-`python3 -m vlib.manifest` regenerates MANIFEST.json from this table."""
+"""Text shared by the per-property registrations (each vlib/checks/cXX.py defines REGISTRATION;
+`python3 -m vlib.manifest` assembles MANIFEST.json from them)."""
 
 COMMON_NOTE = ("Trusted: Lean 4.33.0 kernel (axioms propext/Classical.choice/Quot.sound only, audited per theorem on "
                "every run; no sorry/native_decide/bv_decide), the Lean compiler for the oracle executable, the Go "
@@ -7,21 +7,3 @@ COMMON_NOTE = ("Trusted: Lean 4.33.0 kernel (axioms propext/Classical.choice/Quo
                "model is tied to /repo's working tree on every run by differential correspondence (real code vs "
                "oracle on the same generated cases, exact comparison) and, where listed, by facts regenerated from "
                "the source and re-checked by `decide`. ")
-
-CHECKS = {
-    "C05": {
-        "engine": "lean-gguf",
-        "technique": "Lean 4 proof over byte-level codec model + byte-exact differential correspondence",
-        "category": "proof",
-        "text": "Kernel-checked theorems over a byte-level Lean model of WriteGGUF/Decode (all tensor counts, kinds, "
-                "sizes, alignments): declared offsets are aligned and the tensor's bytes are found there; decoder "
-                "round trip. Model = code is checked byte-for-byte on thousands of generated files per run, and the "
-                "property predicate is evaluated on the real decoder's view of the real writer's file.",
-        "design_ref": "DESIGN.md §5 C05",
-        "note": COMMON_NOTE + "Modelled, not verified: the tensor sort (any permutation is covered by the theorem; "
-                "the harness feeds the order the real sort produced), Tensor.WriterTo writes exactly Size() bytes "
-                "(WfT), file-system writes are faithful.",
-    },
-}
-
-NOT_YET = {}
